@@ -279,7 +279,7 @@ def run_shard(ctx):
 
     for case in ctx.cases(ctx.params["trees"]):
         rng = ctx.rng(case)
-        tg = G.TreeGen(rng, U, max_nodes=rng.choice([4, 9]), max_depth=4, max_width=3, share=0.0, twin=0.1, p_origin=0.7, hostile=0.05, exclude=(f"{P}Nested",))  # Any-typed nested tuples have no YAML form
+        tg = G.TreeGen(rng, U, max_nodes=rng.choice([4, 9]), max_depth=4, max_width=3, share=0.0, twin=0.1, p_origin=0.7, hostile=0.05, exclude=(f"{P}Nested", f"{P}Meta", f"{P}Typed"))  # no (faithful) wire form: Any-typed nested tuples / value objects, a lossy field serializer
         s = tg.tree()
         if case % 3 == 1:
             # the origins carry their own source objects, equal to (but other objects than) the registered ones
